@@ -90,7 +90,7 @@ pub fn run(cfg: &Cfg, out: &mut Out) {
         if r.chance(1, 4) { env.set_sparse(out, &gen_sparse(&mut r)); }
         let t0 = env.build_tree(&gen_tree(&mut r, false));
         let first = env.check_out(out, &t0);
-        if first.result.is_err() { out.oracle_fail("checkout:error", "initial checkout failed".into()); continue; }
+        if first.result.is_err() { ofail(out, "checkout:error", "initial checkout failed".into()); continue; }
         for _ in 0..3 {
             let cf = r.chance(1, 4);
             let gt = gen_tree(&mut r, cf);
@@ -104,11 +104,11 @@ pub fn run(cfg: &Cfg, out: &mut Out) {
             let (disk, _states, stats) = match &res.result {
                 Ok(x) => x,
                 Err(_) if res.known_unsorted => {
-                    out.oracle_fail("checkout:panic:file-states-pushed-out-of-order", format!("check_out panicked (changed_file_states must be sorted) on disk {} old {} new {}",
+                    ofail(out, "checkout:panic:file-states-pushed-out-of-order", format!("check_out panicked (changed_file_states must be sorted) on disk {} old {} new {}",
                         show_disk(&pre.disk), show_tree(&pre.tree), show_tree(&res.new_tree)));
                     break;
                 }
-                Err(e) => { out.oracle_fail(&format!("checkout:{e}"), format!("check_out failed on disk {} old {} new {}", show_disk(&pre.disk), show_tree(&pre.tree), show_tree(&res.new_tree))); break; }
+                Err(e) => { ofail(out, &format!("checkout:{e}"), format!("check_out failed on disk {} old {} new {}", show_disk(&pre.disk), show_tree(&pre.tree), show_tree(&res.new_tree))); break; }
             };
             // the paths the update is about: where old and new tree differ within the patterns
             let oldl = expected_leaves(&pre.tree, sparse);
@@ -158,7 +158,7 @@ pub fn run(cfg: &Cfg, out: &mut Out) {
             if !env.canary_intact() {
                 bad.get_or_insert(("checkout:symlink-followed-out-of-workspace", format!("canary directory changed: {}; {}", show_disk(&scan(&env.canary)), ctx())));
             }
-            match bad { None => out.oracle_ok(), Some((sig, d)) => out.oracle_fail(sig, d) }
+            match bad { None => out.oracle_ok(), Some((sig, d)) => ofail(out, sig, d) }
             out.tally("skipped", if stats.skipped_files == 0 { "0" } else if stats.skipped_files < 3 { "1-2" } else { "3+" });
             if stats.skipped_files > 0 || pre.disk != super::c24::with_parent_dirs(&oldl) {
                 out.nontrivial((show_disk(&pre.disk), show_tree(&pre.tree), show_tree(&res.new_tree), show_seq(sparse)));
